@@ -44,6 +44,14 @@ def rhMap? : Sexp → Option RMap
   | list [atom "item", c] => (asNat? c).map RMap.item
   | _ => none
 
+def rhFilt? : Sexp → Option RFilt
+  | list [atom "truthy"] => some .truthy
+  | list [atom "cmp", c, atom op, list [atom "lit", v]] => do
+    pure (.cmp ⟨← asNat? c, ← rhOp? op, .lit (← asInt? v)⟩)
+  | list [atom "cmp", c, atom op, list [atom "col", j]] => do
+    pure (.cmp ⟨← asNat? c, ← rhOp? op, .col (← asNat? j)⟩)
+  | _ => none
+
 def rhRepName : Rep → String
   | .tuple => "t"
   | .list => "l"
@@ -88,13 +96,13 @@ def handleRowHeap : List Sexp → Option String
     let o := applyMaps maps ⟨src, []⟩ v
     pure (rhReport src o (rhShow o.heap 8))
   -- `peeks` type lookups, then the iteration
-  | [atom "rh-serve", list src, list stream, list maps, drop, peeks] => do
+  | [atom "rh-serve", list src, list stream, list filts, list maps, peeks] => do
     let src ← src.mapM rhObj?
     let stream ← stream.mapM rhVal?
+    let filts ← filts.mapM rhFilt?
     let maps ← maps.mapM rhMap?
-    let drop ← asNat? drop
     let peeks ← asNat? peeks
-    let o := serveRows maps (drop != 0) ⟨src, []⟩ stream peeks
+    let o := serveRows filts maps ⟨src, []⟩ stream peeks
     pure (rhReport src o fun vs => "[" ++ " ".intercalate (vs.map (rhShow o.heap 8)) ++ "]")
   | _ => none
 
